@@ -193,6 +193,25 @@ KIND_TEXT = {
 }
 
 
+def in_dtypes(f, idx, fl, di):
+    """
+    The dtypes in which the two matrices are handed to Instance(...).
+
+    int64, uint64 and the narrowest signed / unsigned type that can hold the
+    largest entry (the instance must not compute its bounds in the caller's
+    type). Small families try all four, the big product families cycle.
+    """
+    mx = max(max(fl), max(di))
+    sg = next(t for t in ("int8", "int16", "int32", "int64")
+              if np.iinfo(t).max >= mx)
+    us = next(t for t in ("uint8", "uint16", "uint32", "uint64")
+              if np.iinfo(t).max >= mx)
+    opts = ["int64", "uint64", sg, us]
+    if f["kind"] == "list" or f["n"] == 1:
+        return sorted(set(opts))
+    return [opts[idx % 4]]
+
+
 def _obj_job(a):
     f, lo, hi = a
     n = f["n"]
@@ -201,28 +220,27 @@ def _obj_job(a):
     bad = None
     for idx in range(lo, hi):
         fl, di = fam_member(f, idx)
-        status, det = check_pair(n, fl, di, f["xd"],
-                                 "uint64" if idx % 5 == 3 else "int64")
-        if status == "skip":
-            skipped += 1
-            continue
-        inst += 1
-        if status == "ok":
-            evals += det[0]
-            storages[det[1]] = storages.get(det[1], 0) + 1
-            if det[2] >= 2:
-                nontriv += 1
-            wrapped += det[3]
-        elif bad is None:
-            bad = (idx, status, det)
+        for ind in in_dtypes(f, idx, fl, di):
+            status, det = check_pair(n, fl, di, f["xd"], ind)
+            if status == "skip":
+                skipped += 1
+                continue
+            inst += 1
+            if status == "ok":
+                evals += det[0]
+                storages[det[1]] = storages.get(det[1], 0) + 1
+                if det[2] >= 2:
+                    nontriv += 1
+                wrapped += det[3]
+            elif bad is None:
+                bad = (idx, status, det, ind)
     return inst, evals, skipped, nontriv, storages, bad, wrapped
 
 
-def report_obj(ctx, f, idx, status, det):
+def report_obj(ctx, f, idx, status, det, ind="int64"):
     n = f["n"]
     fl, di = fam_member(f, idx)
-    again, det2 = check_pair(n, fl, di, f["xd"],
-                             "uint64" if idx % 5 == 3 else "int64")
+    again, det2 = check_pair(n, fl, di, f["xd"], ind)
     if again != status:
         raise HarnessError(f"objective case not reproducible: {status} then "
                            f"{again} for flows={fl} distances={di}")
@@ -231,10 +249,10 @@ def report_obj(ctx, f, idx, status, det):
         sig += f"|storage={det['storage']}"
     ctx.violation(
         sig, f"{KIND_TEXT[status]}: n={n} flows={M.matrix(fl, n)} "
-             f"distances={M.matrix(di, n)} {det}",
+             f"distances={M.matrix(di, n)} handed over as {ind}: {det}",
         dict(kind="objective", n=n, flows=fl, distances=di,
              xdtypes=list(f["xd"]), status=status, detail=det,
-             in_dtype="uint64" if idx % 5 == 3 else "int64"))
+             in_dtype=ind))
 
 
 def explore_objective(ctx: Ctx, f) -> tuple[int, set]:
